@@ -132,6 +132,13 @@ type global struct {
 
 var g global
 
+// Tolerant is set by the harness when the tree under test keeps process-wide state the harness has
+// no hook to reset between executions (the selector cache in another shape than the one the hooks
+// file knows): executions are then not independent of their predecessors, a replayed prefix may not
+// fit, and that is handled like the divergences of executions with threads parked in the runtime -
+// run again, then skipped and reported - instead of being a hard error.
+var Tolerant bool
+
 // OnAbort is called (on the aborting thread) when an execution cannot continue: deadlock,
 // divergence while replaying a prefix, step cap, table overflow.  It must not return.
 var OnAbort = func(kind string, detail string) {
@@ -179,7 +186,7 @@ func Run(cfg Config, prefix []int32, body func()) *Result {
 	point(opJoinAll, nil)
 	g.active = 0
 	g.all.Wait()
-	if g.npoints < g.prefixLen && g.extUsed {
+	if g.npoints < g.prefixLen && (g.extUsed || Tolerant) {
 		g.diverged = true
 	} else if g.npoints < g.prefixLen {
 		OnAbort("divergence", fmt.Sprintf("prefix of %d choices but execution had only %d choice points", g.prefixLen, g.npoints))
@@ -251,7 +258,7 @@ func choose(kind uint8, n int32, runEnabled bool, site int32) int32 {
 	c := int32(0)
 	if i < g.prefixLen {
 		c = g.prefix[i]
-		if (c < 0 || c >= n) && g.extUsed {
+		if (c < 0 || c >= n) && (g.extUsed || Tolerant) {
 			// the runtime decides some things this scheduler does not own once threads park in it
 			// (which ready case a select takes, when a timer fires): the execution is marked and the
 			// explorer runs the prefix again instead of trusting it
